@@ -5,10 +5,20 @@
 #include <Bpp/App/ApplicationTools.h>
 #include <Bpp/Numeric/Random/RandomTools.h>
 #include <Bpp/Io/OutputStream.h>
+#include <Bpp/Numeric/Parameter.h>
 
 namespace dsim {
 
 SimClock g_clock;
+ParamAudit g_audit;
+
+static void auditCallback(const bpp::Parameter* p, const char* where) {
+  ++g_audit.calls;
+  if (p->hasConstraint() && !p->getConstraint()->isCorrect(p->getValue())) {
+    if (g_audit.offences++ == 0) g_audit.first = std::string(where) + " " + p->getName();
+  }
+}
+void installParamAudit() { bpp::verif::parameterAudit = auditCallback; }
 
 std::string hexfloat(double v) {
   char buf[64];
@@ -160,6 +170,7 @@ void resetWorld(uint64_t seed) {
   bpp::ApplicationTools::warningLevel = 0;
   bpp::ApplicationTools::startTime = 1000000000L;
   g_clock.reset();
+  g_audit.reset();
   bpp::RandomTools::setSeed(static_cast<std::mt19937::result_type>(seed & 0xffffffffULL));
 }
 
